@@ -386,7 +386,7 @@ class FeatureInterval(AbstractFeatureInterval):
             (self.start if chromosome_relative_coordinates else self.chunk_relative_start) + 1,
             self.end if chromosome_relative_coordinates else self.chunk_relative_end,
             NULL_COLUMN,
-            self.strand,
+            self.strand if chromosome_relative_coordinates else self.chunk_relative_strand,
             CDSPhase.NONE,
             attributes,
         )
@@ -415,7 +415,7 @@ class FeatureInterval(AbstractFeatureInterval):
                 start + 1,
                 end,
                 NULL_COLUMN,
-                self.strand,
+                self.strand if chromosome_relative_coordinates else self.chunk_relative_strand,
                 CDSPhase.NONE,
                 attributes,
             )
@@ -772,7 +772,7 @@ class FeatureIntervalCollection(AbstractFeatureIntervalCollection):
             (self.start if chromosome_relative_coordinates else self.chunk_relative_start) + 1,
             self.end if chromosome_relative_coordinates else self.chunk_relative_end,
             NULL_COLUMN,
-            self.chunk_relative_location.strand,
+            self.strand if chromosome_relative_coordinates else self.chunk_relative_location.strand,
             CDSPhase.NONE,
             attributes,
         )
